@@ -43,7 +43,7 @@ fn checks_for(property: &str, tier: Tier) -> Vec<Box<dyn Check>> {
     match property {
         | "C01" => vec![Box::new(c02::Universe::new(c02::Mode::Safety, tier)), Box::new(c03::Mutants::new(true, tier)), Box::new(poly::PolyUniverse::new("C01", tier)), Box::new(c03::Holes::new()), Box::new(c03::Declarations::new(true)), Box::new(c03esc::Escapes::new("C01")), Box::new(c03esc::BinderPatterns::new("C01")), Box::new(c03esc::FixAnnotations::new("C01"))],
         | "C02" => vec![Box::new(c02::Universe::new(c02::Mode::Agreement, tier)), Box::new(poly::PolyUniverse::new("C02", tier))],
-        | "C03" => vec![Box::new(c02::Universe::new(c02::Mode::Acceptance, tier)), Box::new(c03::Mutants::new(false, tier)), Box::new(poly::PolyUniverse::new("C03", tier)), Box::new(poly::PolyMatrix::new(tier)), Box::new(c03::Declarations::new(false)), Box::new(poly::KindMatrix::new(tier)), Box::new(c03esc::Escapes::new("C03")), Box::new(c03esc::BinderPatterns::new("C03")), Box::new(c03esc::FixAnnotations::new("C03"))],
+        | "C03" => vec![Box::new(c02::Universe::new(c02::Mode::Acceptance, tier)), Box::new(c03::Mutants::new(false, tier)), Box::new(poly::PolyUniverse::new("C03", tier)), Box::new(poly::PolyMatrix::new(tier)), Box::new(c03::Declarations::new(false)), Box::new(poly::KindMatrix::new(tier)), Box::new(c03esc::Escapes::new("C03")), Box::new(c03esc::BinderPatterns::new("C03")), Box::new(c03esc::FixAnnotations::new("C03")), Box::new(c03esc::OperatorNesting::new())],
         | "C04" => c04::checks(tier),
         | "C05" => c05::checks(),
         | "C06" => c06::checks(tier),
